@@ -1,7 +1,7 @@
 """Tracing, scheduling and failpoints for the aggregator (DESIGN.md 2.4) -- C16, C17.
 
-Installed by rebinding module globals of panoptica.panoptica_aggregator (filelock,
-inevalfilelock, open, os) and panoptica.panoptica_statistics (open).  Every traced
+Locks created by panoptica.panoptica_aggregator are proxied at creation (vf.pan) and report to a hook here;
+`open` / `os` of that module and `open` of panoptica.panoptica_statistics are rebound.  Every traced
 operation is an event, a scheduling point and a failpoint.
 """
 
@@ -103,48 +103,42 @@ def die():
 
 
 # ----------------------------------------------------------------------------- traced objects
-class TracedLock:
-    def __init__(self, real, name):
-        self.real = real
-        self.name = name
+class LockHook:
+    """installed as pan.LOCK_HOOK: every acquire / release of a lock created by the aggregator module"""
 
-    def acquire(self, *a, **k):
-        point("acquire", self.name)
+    def acquire(self, proxy, *a, **k):
+        if T.mode == "off":
+            return proxy.real.acquire(*a, **k)
+        point("acquire", proxy.name)
         if T.mode == "controlled" and threading.get_ident() in T.worker_of:
-            ok = self.real.acquire(False)
+            ok = proxy.real.acquire(False)
             if not ok:
                 # the model said free but the real lock is held: an acquisition the tracer did not see
-                T.sched.note_untraced_block(worker_id(), self.name)
-                ok = self.real.acquire(True, 20)
+                T.sched.note_untraced_block(worker_id(), proxy.name)
+                ok = proxy.real.acquire(True, 20)
                 if not ok:
                     raise RuntimeError("verif: lock acquisition timed out under the controlled scheduler")
         elif T.mode in ("noise", "crash", "log"):
-            ok = self.real.acquire(True, 120)
+            ok = proxy.real.acquire(True, 120)
             if not ok:
-                emit("acquire_timeout", self.name)
+                emit("acquire_timeout", proxy.name)
                 raise RuntimeError("verif: lock acquisition timed out (120 s)")
         else:
-            ok = self.real.acquire(*a, **k)
-        after("acquired", self.name)
+            ok = proxy.real.acquire(*a, **k)
+        after("acquired", proxy.name)
         return ok
 
-    def release(self):
-        point("release", self.name, yield_=False)
-        self.real.release()
+    def release(self, proxy):
+        if T.mode == "off":
+            return proxy.real.release()
+        point("release", proxy.name, yield_=False)
+        proxy.real.release()
         if T.mode == "controlled" and T.sched is not None:
-            T.sched.lock_released(self.name)
-        after("released", self.name)
+            T.sched.lock_released(proxy.name, worker_id())
+        after("released", proxy.name)
         # scheduling point between two critical sections
         if T.mode in ("controlled", "noise"):
-            point("after_release", self.name)
-
-    def __enter__(self):
-        self.acquire()
-        return self
-
-    def __exit__(self, *a):
-        self.release()
-        return False
+            point("after_release", proxy.name)
 
 
 class TracedFile:
@@ -261,13 +255,11 @@ class OsProxy:
 def install():
     if T.installed:
         return
-    T.locks_traced = hasattr(PA, "filelock") and hasattr(PA, "inevalfilelock")
-    if T.locks_traced:
-        T.real = {"filelock": PA.filelock, "inevalfilelock": PA.inevalfilelock}
-        PA.filelock = TracedLock(PA.filelock, "filelock")
-        PA.inevalfilelock = TracedLock(PA.inevalfilelock, "inevalfilelock")
-    # without the two module-level locks the controlled scheduler cannot model blocking; file operations are
-    # still traced, and the thread / process histories (real locks, whatever they are) are still judged
+    # every lock the aggregator module created (under whatever name, see vf.pan) reports to the hook; without
+    # any such lock the controlled scheduler cannot model blocking: file operations are still traced, and the
+    # thread / process histories (real synchronisation, whatever it is) are still judged
+    pan.LOCK_HOOK = LockHook()
+    T.locks_traced = len(pan.LOCK_PROXIES) > 0
     PA.open = traced_open
     if hasattr(PA, "os"):
         PA.os = OsProxy(PA.os)
@@ -277,11 +269,8 @@ def install():
 
 def fresh_locks():
     """new unlocked lock objects, as a new process would have (used after fork in C17)"""
-    from multiprocessing import Lock
-
-    if T.locks_traced:
-        PA.filelock = TracedLock(Lock(), "filelock")
-        PA.inevalfilelock = TracedLock(Lock(), "inevalfilelock")
+    for proxy in pan.LOCK_PROXIES:
+        proxy.fresh()
 
 
 def reset(mode="off", **kw):
@@ -338,9 +327,13 @@ class Controlled:
                 if self.deadlock is not None or self.timed_out:
                     raise Deadlock()
 
-    def lock_released(self, name):
+    def lock_released(self, name, w=None):
         with self.cv:
-            self.owner.pop(name, None)
+            o = self.owner.get(name)
+            if o is not None and o[1] > 1:
+                self.owner[name] = (o[0], o[1] - 1)
+            else:
+                self.owner.pop(name, None)
 
     def note_untraced_block(self, w, name):
         self.untraced.append((w, name))
@@ -348,7 +341,8 @@ class Controlled:
     def _enabled(self, w):
         op, obj = self.pending[w]
         if op == "acquire":
-            return obj not in self.owner
+            o = self.owner.get(obj)
+            return o is None or (o[0] == w and obj.endswith("R"))  # re-entrant locks may be re-acquired by their owner
         return True
 
     # main loop ---------------------------------------------------------------------------
@@ -403,7 +397,8 @@ class Controlled:
                     self.preemptions += 1
                 op, obj = self.pending[w]
                 if op == "acquire":
-                    self.owner[obj] = w
+                    o = self.owner.get(obj)
+                    self.owner[obj] = (w, (o[1] + 1) if o is not None else 1)
                 self.trace.append((w, op, obj))
                 self.granted_info[w] = (op, obj, self.pending_info.get(w))
                 self.last = w
